@@ -24,13 +24,14 @@ class Lattice(object):
         self.ext0 = ext0
         self.ext_cut = ext_cut
         self.ndims = ndims
-        self.scale = scale
+        self.scale = scale if isinstance(scale, int) else None
+        self.scale1, self.scale2 = (scale, scale) if isinstance(scale, int) else tuple(scale)
         self.nlev = len(mesh)
 
     def dom(self):
         d = [0] * self.ndims
-        d[self.axes[0]] = self.n1 * self.scale
-        d[self.axes[1]] = self.n2 * self.scale
+        d[self.axes[0]] = self.n1 * self.scale1
+        d[self.axes[1]] = self.n2 * self.scale2
         if self.ndims == 3:
             d[self.axes[2]] = self.ext0
         return d
@@ -41,12 +42,12 @@ class Lattice(object):
     def concrete_boxes(self, lv):
         """[(abstract box number (1-based), {"lo","hi"}), ...] in header order."""
         out = []
-        s = self.scale
+        s1, s2 = self.scale1, self.scale2
         for b, ab in enumerate(self.mesh[lv], 1):
             lo = [0] * self.ndims
             hi = [0] * self.ndims
-            lo[self.axes[0]], hi[self.axes[0]] = ab["lo"][0] * s, (ab["hi"][0] + 1) * s - 1
-            lo[self.axes[1]], hi[self.axes[1]] = ab["lo"][1] * s, (ab["hi"][1] + 1) * s - 1
+            lo[self.axes[0]], hi[self.axes[0]] = ab["lo"][0] * s1, (ab["hi"][0] + 1) * s1 - 1
+            lo[self.axes[1]], hi[self.axes[1]] = ab["lo"][1] * s2, (ab["hi"][1] + 1) * s2 - 1
             if self.ndims == 2:
                 out.append((b, {"lo": lo, "hi": hi}))
                 continue
